@@ -624,7 +624,11 @@ theorem parseBitmap_ne_panic (d : Bytes) (stt : BmState) (acc : List Nat) (s : S
 
 theorem readTypeSet_sat : Sat readTypeSet 1 0 0 (fun _ => True) := by
   unfold readTypeSet
-  exact Sat.toEnd (fun d s => parseBitmap_ne_panic d _ _ s) (fun d => Nat.le_refl _) (fun _ _ _ => trivial)
+  exact Sat.toEnd (fun d s => by
+    cases h : parseBitmap d .window [] with
+    | ok v => simp [Outcome.map]
+    | err => simp [Outcome.map]
+    | panic s' => exact absurd h (parseBitmap_ne_panic d _ _ s')) (fun d => Nat.le_refl _) (fun _ _ _ => trivial)
 
 /-- `TSIG::read_data`: `end_idx - decoder.index()` cannot underflow (`end_idx` is the buffer length) -/
 theorem readTsig_sat : Sat readTsig 1 33024 0 (RP 250) := by
